@@ -1,11 +1,13 @@
 package mcx
 
 import (
+	"context"
 	"encoding/json"
 	"fmt"
 	"os"
 	"os/exec"
 	"strings"
+	"time"
 
 	"verif/ev"
 )
@@ -19,11 +21,20 @@ func RacePass(acc *ev.Acc, prop, tier string) {
 		return
 	}
 	for _, procs := range []string{"1", "2", "16"} {
-		cmd := exec.Command(bin, "-tier", tier)
+		// the free-running pass only looks for data races; it has no say on deadlocks (the controlled
+		// exploration decides those), so a run that does not come back is cut off and recorded, not judged
+		ctx, cancel := context.WithTimeout(context.Background(), 5*time.Minute)
+		cmd := exec.CommandContext(ctx, bin, "-tier", tier)
 		cmd.Env = append(os.Environ(), "GOMAXPROCS="+procs, "GORACE=halt_on_error=0 exitcode=66")
 		var stderr strings.Builder
 		cmd.Stderr = &stderr
 		out, err := cmd.Output()
+		timedOut := ctx.Err() != nil
+		cancel()
+		if timedOut {
+			acc.NotExhaustive("free-running race pass cut off after 5 min at GOMAXPROCS=" + procs + " (it blocked; deadlocks are decided by the controlled exploration)")
+			break
+		}
 		races := strings.Count(stderr.String(), "WARNING: DATA RACE")
 		acc.Add("race_pass_runs", 1)
 		acc.Add("race_pass_races", int64(races))
@@ -32,7 +43,7 @@ func RacePass(acc *ev.Acc, prop, tier string) {
 			if len(first) > 3000 {
 				first = first[:3000]
 			}
-			acc.Violate(ev.Violation{Key: prop + "/mem/data-race", Msg: fmt.Sprintf("race detector reported %d data race(s) in the free-running pass (GOMAXPROCS=%s): %s", races, procs, first), Replay: map[string]any{"mode": "free-race", "gomaxprocs": procs}})
+			acc.Violate(ev.Violation{Key: prop + "/data-race", Msg: fmt.Sprintf("race detector reported %d data race(s) in the free-running pass (GOMAXPROCS=%s): %s", races, procs, first), Replay: map[string]any{"mode": "free-race", "gomaxprocs": procs}})
 			continue
 		}
 		if err != nil {
